@@ -59,12 +59,12 @@ for C06, C07, C09, C11, C14, C15, C16 and C18, each on the tree with the `fix:` 
 the time.
 The raw logs of the confirmation runs are in `seeded/logs/`. After the two repairs of the
 fifth round (`/repo` HEAD 8b7f35b) every stored patch was checked to apply to that tree
-(`C08-m6` and `C18-m6` were re-based by hand, `REBASE_NOTE.txt`), and 63 changes were
-confirmed again from scratch on it (`seeded/logs/reconf_r5_*.log`: demo 0 on the unchanged
-tree, tests pass, demo 1, quick check reports it - all 63 reported); the session
-ended before the remaining ones were re-run, their `meta.json` is from the previous full
-confirmation on 006e171 (the two repairs touch `Quantity.__new__`'s parse-with-unit branch
-and one condition of `new_unit` only).
+(`C08-m6` and `C18-m6` were re-based by hand, `REBASE_NOTE.txt`), and all 150 changes were
+confirmed again from scratch on it (`seeded/logs/reconf_r5_*.log`, `reconf_r5b_*.log`: demo
+0 on the unchanged tree, tests pass, demo 1, quick check of the own property exits 1); the
+table below is built from that run. Four entries of the first batch were lost when I
+stopped the streams to run the evidence refresh on an idle machine (the kill hit their
+checks, exit 143); those four changes were run again in the second batch.
 
 {det} of {n} confirmed changes are reported by the quick tier of the check of their own
 property - *after* the strengthening described below the table. At first sight the checks
